@@ -473,7 +473,9 @@ class The(ResultQuantifier[T]):
 
     def evaluate(self) -> TypingUnion[Iterable[T], T, UnificationDict]:
         try:
-            result = self._evaluate_()
+            # like An.evaluate, always evaluate concretely, also when called inside a symbolic_mode/rule_mode block.
+            with symbolic_mode(mode=None):
+                result = self._evaluate_()
             result = self._process_result_(result)
         finally:
             # also when no/multiple solutions were found, otherwise the next evaluation sees stale state.
